@@ -281,4 +281,19 @@ theorem juiceRecords_counts (A : Arith F) (fuel : Nat) :
       cases hk : e.kind <;> simp [recordOf] <;> omega
     · exact absurd h (by simp)
 
+
+/-- For `since_last_tick ≤ 100` there are no tiny droplets whether or not the `> 80.0` guard is
+taken: nothing is halved, `t` starts at `since` and `t < since` fails at once. The guard constant
+(80) is therefore unobservable anywhere in `(−∞, 100]` — in every arithmetic whose `<` is
+irreflexive (IEEE `<` is, NaN included). -/
+theorem tinyDroplets_zero_of_le_100 (A : Arith F) (hirr : ∀ x, A.lt x x = false) (fuel : Nat)
+    (since : F) (h : A.lt (A.ofInt 100) since = false) : tinyDroplets A (fuel + 1) since = some 0 := by
+  unfold tinyDroplets
+  split
+  · unfold halveLoop
+    simp only [h, Bool.false_eq_true, if_false]
+    unfold tinyLoop
+    simp [hirr]
+  · rfl
+
 end Rosu.SliderEvents
